@@ -6,7 +6,7 @@ def run(ctx):
     quick = ctx.tier == "quick"
     ctx.build()
     ctx.mc("MC_Output", "MC_Output.cfg", require_actions=False)
-    out = ctx.harness(["output", "--random", "1500" if quick else "25000", "--maxv", "9" if quick else "14"], timeout=3000)
+    out = ctx.harness(["output", "--random", "1500" if quick else "100000", "--maxv", "9" if quick else "14"], timeout=3000)
     scns = common.split_scenarios(out)
     for s, evs in scns:
         if evs and evs[0].get("ev") == "Render" and len(evs[0]["route"]) >= 2:
